@@ -121,7 +121,7 @@ def run_obligations(pid, W, tier, config):
     return mod, obs
 
 
-def check_property(pid, tier='quick', repo='/repo', write=True, quiet=False, configs=None):
+def check_property(pid, tier='quick', repo='/repo', write=True, quiet=False, configs=None, kill_matrix=None):
     t0 = time.time()
     seed = int(os.environ.get('VERIF_SEED', '0') or 0)
     if configs is None:
@@ -206,6 +206,7 @@ def check_property(pid, tier='quick', repo='/repo', write=True, quiet=False, con
                 not_decided=getattr(mod, 'NOT_DECIDED', []),
                 samples=samples,
                 fact_extraction={c: i for c, i in infos.items()},
+                **({'kill_matrix': kill_matrix} if kill_matrix is not None else {}),
             ),
             assumptions=getattr(mod, 'ASSUMPTIONS', []),
             wall_s=wall,
@@ -237,16 +238,21 @@ def main(argv):
     a = ap.parse_args(argv)
     if a.property == 'explain':
         return 0
-    violations, known_hits, all_obs = check_property(a.property, a.tier, a.repo, write=not a.no_write)
+    km = None
+    if a.tier == 'thorough' and not a.no_write and a.repo == '/repo':
+        # self-test on the tree being judged: mutants of this property must be reported, neutral rewrites must stay quiet
+        from . import killmatrix
+        km = killmatrix.run(a.property, quiet=True)
+    violations, known_hits, all_obs = check_property(a.property, a.tier, a.repo, write=not a.no_write, kill_matrix=km)
+    if km is not None:
+        print('self-test (kill matrix on scratch copies of the current tree): %s' % km['summary'])
+        for r in km['results']:
+            if r['status'] in ('missed', 'FALSE-ALARM', 'error'):
+                print('  SELFTEST-%s %s %s' % (r['status'], r['id'], r.get('detail', '')[:120]))
     if a.verbose:
         for config, ob in all_obs:
             for i in ob.instances:
                 print('    [%s] %s %s: %s %s' % (config, ob.id, i['status'], i['what'], i.get('where') or ''))
-    if a.tier == 'thorough' and not a.no_write and a.repo == '/repo':
-        from . import killmatrix
-        bad = killmatrix.run(a.property)
-        if bad:
-            return 1
     return 1 if violations else 0
 
 
